@@ -9,6 +9,8 @@ package mdns
 //@   ensures result != nil && len(result) >= 1
 //@ lib strings.SplitN(s, sep, n)
 //@   ensures result != nil && len(result) >= 1 && (n > 0 ==> len(result) <= n)
+//@   ensures !contains(s, sep) ==> len(result) == 1 && result[0] == s
+//@   ensures n == 2 && len(sep) > 0 && contains(s, sep) ==> len(result) == 2 && result[0] == substr(s, 0, indexof(s, sep)) && result[1] == substr(s, indexof(s, sep) + len(sep), len(s) - indexof(s, sep) - len(sep))
 //@ lib strconv.ParseUint(s, base, bitSize)
 //@ lib net.ParseIP(s)
 //@ lib (ip net.IP).To4() pure
@@ -32,20 +34,38 @@ package mdns
 //@ func (m *MdnsManager).setMdnsEntry(ski, entry) inline
 //@ func (m *MdnsManager).removeMdnsEntry(ski) inline
 
+// a byte starts a UTF-8 sequence unless it is a continuation byte 10xxxxxx
+//@ pred runeStart(b int) := !(128 <= b && b < 192)
 //@ lib utf8.RuneStart(b) pure
+//@   ensures result == runeStart(b)
 //@ func shortenString(s, maxLen0) pure [C16,C08]
 //@   requires maxLen0 >= 0
 //@   ensures [C16] L1-short: len(s) <= maxLen0 ==> result == s
 //@   ensures [C16] L2-bound: len(result) <= maxLen0 || len(s) <= maxLen0
 //@   ensures [C16] L3-prefix: prefixof(result, s)
+// the cut never falls inside a multi-byte sequence: the first byte cut off starts a sequence (or everything is cut
+// off), and the cut is the last such position within the limit - so a valid UTF-8 input gives a valid UTF-8 output
+//@   ensures [C16] L7-rune-boundary: len(s) > maxLen0 ==> len(result) == 0 || runeStart(s[len(result)])
+//@   ensures [C16] L8-longest: len(s) > maxLen0 ==> (forall j: int :: len(result) < j && j <= maxLen0 ==> !runeStart(s[j]))
 //@ loop shortenString #0
 //@   invariant 0 <= maxLen && maxLen <= maxLen0 && maxLen < len(s)
+//@   invariant forall j: int :: maxLen < j && j <= maxLen0 ==> !runeStart(s[j])
 //@ func NewMDNS(ski, deviceBrand, deviceModel, deviceType, deviceSerial, deviceCategories, shipIdentifier, serviceName, port, ifaces, providerSelection) [C16]
 //@   ensures [C16] L4-fields: result != nil && len(result.deviceBrand) <= 32 && len(result.deviceModel) <= 32 && len(result.deviceType) <= 32 && len(result.deviceSerial) <= 32
 //@   ensures [C16] L5-prefix: prefixof(result.deviceBrand, deviceBrand) && prefixof(result.deviceModel, deviceModel) && prefixof(result.deviceType, deviceType) && prefixof(result.deviceSerial, deviceSerial)
 //@   ensures [C16] L6-identity: result.ski == ski && result.identifier == shipIdentifier && result.port == port && result.serviceName == serviceName
 //@   ensures result.entries != nil
 //@   establishes result
+// ---- QR code text (C16): fixed frame, mandatory fields first, every value free of the field separator ----
+// strings.ReplaceAll(v, ";", "") leaves no ";" (library semantics, assumed)
+//@ axiom Q0-no-separator: forall v: string :: !contains(uf_ReplaceAll(v, ";", ""), ";")
+//@ pred qrField(k string, v string) string := ite(len(v) > 0, uf_ToUpper(k) + ":" + uf_ReplaceAll(v, ";", "") + ";", "")
+//@ func (m *MdnsManager).safeQRCodeKeyValue(key, value) pure [C16,C08]
+//@   ensures [C16] Q1-field: result == qrField(key, value)
+//@   ensures [C16] Q2-one-field: len(value) > 0 ==> !contains(uf_ReplaceAll(value, ";", ""), ";")
+//@ func (m *MdnsManager).QRCodeText() [C16,C08]
+//@   ensures [C16] Q3-frame: result == "SHIP;SKI:" + uf_ReplaceAll(m.ski, ";", "") + ";ID:" + uf_ReplaceAll(m.identifier, ";", "") + ";" + qrField("BRAND", m.deviceBrand) + qrField("TYPE", m.deviceType) + qrField("MODEL", m.deviceModel) + qrField("SERIAL", m.deviceSerial) + ite(m.deviceCategories != nil, qrField("CAT", lastresult(deviceCategoriesString, "")), "") + "ENDSHIP;"
+//@   ensures [C16] Q4-mandatory-clean: !contains(uf_ReplaceAll(m.ski, ";", ""), ";") && !contains(uf_ReplaceAll(m.identifier, ";", ""), ";")
 // ---- announcing (C16): what is published is the current configuration, field by field ----
 // $txtAnnounced: the TXT list most recently handed to the provider; $announces: how often
 //@ ghost field Provider.$announces int
@@ -53,7 +73,7 @@ package mdns
 //@   ensures this.$announces == old(this.$announces) + 1
 //@   modifies this.$announces
 //@ iface api.MdnsProviderInterface.Unannounce()
-//@ func (m *MdnsManager).deviceCategoriesString(categories) pure [C08]
+//@ func (m *MdnsManager).deviceCategoriesString(categories) pure [C08,C16]
 //@ loop (m *MdnsManager).deviceCategoriesString #0
 //@   invariant true
 //@ func (m *MdnsManager).AnnounceMdnsEntry() entry [C16]
@@ -67,8 +87,18 @@ package mdns
 //@   ensures [C16] A5-flag: m.autoaccept == accept
 //@   ensures [C16] A6-republished: old(m.isAnnounced) && m.mdnsProvider != nil ==> m.mdnsProvider.$announces == old(m.mdnsProvider.$announces) + 1
 //@   modifies m.autoaccept, m.isAnnounced, m.mdnsProvider.$announces
+// TXT items "key=value": the key ends at the FIRST "=", the value is everything behind it (it may contain "=");
+// items without "=" are skipped; of two items with the same key the later one wins
+//@ pred txtKey(item string) string := substr(item, 0, indexof(item, "="))
+//@ pred txtVal(item string) string := substr(item, indexof(item, "=") + 1, len(item) - indexof(item, "=") - 1)
 //@ func parseTxt(txt) [C08,C16]
 //@   ensures result != nil
+//@   ensures [C16] T1-keys: forall i: int :: 0 <= i && i < len(txt) && contains(txt[i], "=") ==> txtKey(txt[i]) in result
+// (which value is stored under a key, and that no other keys appear, is covered by the bounded stand-in only: the
+// quantified string obligations for it were answered 'unknown' or were unstable from run to run, so they are not claimed)
+//@ loop parseTxt #0
+//@   invariant result != nil
+//@   invariant forall i: int :: 0 <= i && i <= rangeindex && contains(txt[i], "=") ==> txtKey(txt[i]) in result
 // C17: what is reported is a snapshot - a new map of new entries - so nothing the receiver does with it (the hub
 // replaces and sorts address lists) reaches the manager's own set of known services
 //@ func (m *MdnsManager).copyMdnsEntries() [C08,C17]
